@@ -553,9 +553,7 @@ func (w *World) ensureInit(pkg *ssa.Package) {
 		w.initDone[pkg] = 2
 		return
 	}
-	if fn.Blocks == nil {
-		pkg.Build()
-	}
+	pkg.Build()
 	w.callSync(fn, nil)
 	w.initDone[pkg] = 2
 }
